@@ -139,7 +139,9 @@ Qed.
 
 Lemma f0_sustain_derived f : In f (fl_act fb) -> is_derived fb f = true -> sustain_of fb f = 1.
 Proof.
-  intros Hf Hd. destruct (f0_act_kind fb HF f Hf) as [H | [Hc _]]; [congruence|]. apply f0_sustain_main. exact Hc.
+  intros Hf Hd. destruct (f0_act_kind fb HF f Hf) as [H | [[Hc _] | _]]; [congruence | apply f0_sustain_main; exact Hc|].
+  apply f0_sustain_single. apply (f0_derived_single fb (f0_unpack fb HF)).
+  unfold has_derived. apply existsb_exists. exists f. split; assumption.
 Qed.
 
 Lemma f0_sem_trials : s_trials S0 = fl_trials fb.
@@ -182,16 +184,33 @@ Proof.
   intros Hnd. unfold is_derived in Hnd. rewrite Hd in Hnd. destruct (ff_window d); [discriminate | reflexivity].
 Qed.
 
-Lemma f0_sem_crossed_derived f fd : In f (fl_act fb) -> is_derived fb f = true -> nth_error (s_factors S0) f = Some fd ->
+Lemma f0_sem_crossed_derived f fd : In f c -> is_derived fb f = true -> nth_error (s_factors S0) f = Some fd ->
   In f c /\ exists d w, factor_at fb f = Some d /\ ff_window d = Some w /\
     f_derived fd = Some {| w_deps := win_deps w; w_width := 1; w_stride := 1; w_start := 0;
                             w_table := map lv_accepts (ff_levels d) |} /\
     (forall x, In x (win_deps w) -> In x (fl_act fb) /\ is_derived fb x = false).
 Proof.
-  intros Hact Hder H. destruct (f0_sem_factor_at f fd H) as (Hf & d & Hd & ->).
-  destruct (f0_act_kind fb HF f Hact) as [Hn | (Hc & d' & w & Hd' & Hw & Hwd & Hsd & Hst & Hdeps)]; [congruence|].
+  intros Hc Hder H. destruct (f0_sem_factor_at f fd H) as (Hf & d & Hd & ->).
+  destruct (f0_crossed_kind fb HF f Hc Hder) as (d' & w & Hd' & Hw & Hwd & Hsd & Hst & Hdeps).
   rewrite Hd in Hd'. inversion Hd'; subst d'. split; [exact Hc|]. exists d, w. split; [exact Hd|]. split; [exact Hw|].
   unfold CodeSem.code_factor. cbn [f_derived]. rewrite Hw, Hwd, Hsd, Hst. split; [reflexivity | exact Hdeps].
+Qed.
+
+(** a derived factor of [act_design] outside the sampled crossing *)
+Lemma f0_sem_ucd f fd : In f (fl_act fb) -> ~ In f c -> is_derived fb f = true -> nth_error (s_factors S0) f = Some fd ->
+  exists d w, factor_at fb f = Some d /\ ff_window d = Some w /\ f_nlevels fd = nlevels fb f /\ f_sustain fd = 1 /\
+    f_derived fd = Some {| w_deps := win_deps w; w_width := 1; w_stride := 1; w_start := 0;
+                            w_table := map lv_accepts (ff_levels d) |} /\
+    (forall x, In x (win_deps w) -> In x (fl_act fb) /\ (is_derived fb x = false \/ In x c)) /\ tables_exact fb f w = true.
+Proof.
+  intros Hact Hnc Hder H. destruct (f0_sem_factor f fd Hact H) as (_ & Hnl & Hsu & _).
+  rewrite (f0_sustain_derived f Hact Hder) in Hsu.
+  destruct (f0_sem_factor_at f fd H) as (Hf & d & Hd & ->).
+  destruct (f0_act_kind fb HF f Hact) as [Hn | [[Hc _] | (_ & d' & w & Hd' & Hw & Hwd & Hsd & Hst & Hdeps & Hex)]];
+    [congruence | contradiction|].
+  rewrite Hd in Hd'. inversion Hd'; subst d'. exists d, w. split; [exact Hd|]. split; [exact Hw|].
+  split; [exact Hnl|]. split; [exact Hsu|].
+  unfold CodeSem.code_factor. cbn [f_derived]. rewrite Hw, Hwd, Hsd, Hst. split; [reflexivity|]. split; [exact Hdeps | exact Hex].
 Qed.
 
 (** the other factors are within-trial derived factors that read factors of [act_design] *)
@@ -228,7 +247,42 @@ Proof.
   cbn [existsb]. rewrite sem_args_eqb', IH. reflexivity.
 Qed.
 
-(** in a trial in which the factors an implied factor reads all carry a level, exactly one of its levels is accepted *)
+(** a within-trial factor with an exact table: in a trial in which the factors it reads all carry a level,
+    exactly one of its levels is accepted *)
+Lemma f0_table_exact f fd d w (s0 : tseq) t : factor_at fb f = Some d -> f_nlevels fd = nlevels fb f -> f_sustain fd = 1 ->
+  tables_exact fb f w = true ->
+  (forall x, In x (win_deps w) -> exists l, get_cell s0 x t = Some l /\ l < nlevels fb x) ->
+  let dw := {| w_deps := win_deps w; w_width := 1; w_stride := 1; w_start := 0; w_table := map lv_accepts (ff_levels d) |} in
+  exists l0, l0 < f_nlevels fd /\ Sem.accepts dw l0 (window_args s0 fd dw t) = true /\
+    forall l, l < f_nlevels fd -> Sem.accepts dw l (window_args s0 fd dw t) = true -> l = l0.
+Proof.
+  intros Hd Hnl Hsu Hex Hcells dw.
+  assert (Hwa : window_args s0 fd dw t = map (fun x => [get_cell s0 x t]) (win_deps w)).
+  { unfold window_args. rewrite Hsu. cbn [w_width w_deps dw]. rewrite Nat.div_1_r, Nat.mul_1_r.
+    cbn [seq map Nat.sub Nat.mul Nat.leb]. apply map_ext. intros x. rewrite Nat.sub_0_r. reflexivity. }
+  assert (Hargs : exists args, map (fun x => [get_cell s0 x t]) (win_deps w) = map (fun a => [Some a]) args /\
+                               In args (Enum.product (map (all_levels fb) (win_deps w)))).
+  { clear - Hcells. induction (win_deps w) as [|x xs IH].
+    - exists []. split; [reflexivity | left; reflexivity].
+    - destruct IH as (args & E & Hin); [intros y Hy; apply Hcells; right; exact Hy|].
+      destruct (Hcells x (or_introl eq_refl)) as (l & El & Hl).
+      exists (l :: args). cbn [map]. rewrite El, E. split; [reflexivity|].
+      cbn [Enum.product]. apply in_flat_map. exists l. split; [unfold all_levels; apply in_seq; lia|].
+      apply in_map. exact Hin. }
+  destruct Hargs as (args & Eargs & Hin).
+  unfold tables_exact in Hex. rewrite forallb_forall in Hex. specialize (Hex args Hin). apply Nat.eqb_eq in Hex.
+  assert (Hacc : forall l, Sem.accepts dw l (window_args s0 fd dw t) = predicate fb f l (map (fun a => [Some a]) args)).
+  { intros l. rewrite Hwa, Eargs. unfold dw. apply (sem_accepts_predicate f d _ _ _ _ l _ Hd). }
+  destruct (filter (fun l => predicate fb f l (map (fun a => [Some a]) args)) (all_levels fb f)) as [|l0 [|? ?]] eqn:Ef; try discriminate.
+  assert (Hl0 : In l0 (filter (fun l => predicate fb f l (map (fun a => [Some a]) args)) (all_levels fb f))) by (rewrite Ef; left; reflexivity).
+  apply filter_In in Hl0. destruct Hl0 as [Hl0 Hp0]. unfold all_levels in Hl0. apply in_seq in Hl0.
+  exists l0. split; [rewrite Hnl; lia|]. split; [rewrite Hacc; exact Hp0|].
+  intros l Hl Ha. rewrite Hacc in Ha.
+  assert (Hin' : In l (filter (fun l => predicate fb f l (map (fun a => [Some a]) args)) (all_levels fb f))).
+  { apply filter_In. split; [unfold all_levels; apply in_seq; rewrite Hnl in Hl; lia | exact Ha]. }
+  rewrite Ef in Hin'. destruct Hin' as [E | []]. symmetry. exact E.
+Qed.
+
 Lemma f0_implied_exact f fd (s0 : tseq) t : ~ In f (fl_act fb) -> nth_error (s_factors S0) f = Some fd ->
   (forall x, In x (fl_act fb) -> exists l, get_cell s0 x t = Some l /\ l < nlevels fb x) ->
   exists dw l0, f_derived fd = Some dw /\ w_width dw = 1 /\ w_stride dw = 1 /\ w_start dw = 0 /\ f_sustain fd = 1 /\
@@ -238,39 +292,9 @@ Lemma f0_implied_exact f fd (s0 : tseq) t : ~ In f (fl_act fb) -> nth_error (s_f
 Proof.
   intros Hact Hfd Hcells.
   destruct (f0_sem_implied f fd Hact Hfd) as (d & w & Hd & Hw & Hnl & Hsu & Hder & Hdeps & Hex).
-  set (dw := {| w_deps := win_deps w; w_width := 1; w_stride := 1; w_start := 0; w_table := map lv_accepts (ff_levels d) |}) in *.
-  assert (Hwa : window_args s0 fd dw t = map (fun x => [get_cell s0 x t]) (win_deps w)).
-  { unfold window_args. rewrite Hsu. cbn [w_width w_deps dw]. rewrite Nat.div_1_r, Nat.mul_1_r.
-    cbn [seq map Nat.sub Nat.mul Nat.leb]. apply map_ext. intros x. rewrite Nat.sub_0_r. reflexivity. }
-  assert (Hargs : exists args, map (fun x => [get_cell s0 x t]) (win_deps w) = map (fun a => [Some a]) args /\
-                               In args (Enum.product (map (all_levels fb) (win_deps w)))).
-  { clear - Hdeps Hcells. induction (win_deps w) as [|x xs IH].
-    - exists []. split; [reflexivity | left; reflexivity].
-    - destruct IH as (args & E & Hin); [intros y Hy; apply Hdeps; right; exact Hy|].
-      destruct (Hcells x (Hdeps x (or_introl eq_refl))) as (l & El & Hl).
-      exists (l :: args). cbn [map]. rewrite El, E. split; [reflexivity|].
-      cbn [Enum.product]. apply in_flat_map. exists l. split; [unfold all_levels; apply in_seq; lia|].
-      apply in_map. exact Hin. }
-  destruct Hargs as (args & Eargs & Hin).
-  unfold tables_exact in Hex. rewrite forallb_forall in Hex. specialize (Hex args Hin). apply Nat.eqb_eq in Hex.
-  assert (Hacc : forall l, Sem.accepts dw l (window_args s0 fd dw t) = predicate fb f l (map (fun a => [Some a]) args)).
-  { intros l. rewrite Hwa, Eargs. unfold Sem.accepts, predicate, level_accepts, levels_of. cbn [w_table dw]. rewrite Hd.
-    assert (Etab : nth l (map lv_accepts (ff_levels d)) [] = match nth_error (ff_levels d) l with Some lv => lv_accepts lv | None => [] end).
-    { destruct (nth_error (ff_levels d) l) as [lv|] eqn:E.
-      - rewrite (nth_indep _ [] (lv_accepts lv)) by (rewrite map_length; apply nth_error_Some; congruence).
-        rewrite (map_nth lv_accepts). rewrite (nth_error_nth _ _ lv E). reflexivity.
-      - apply nth_overflow. rewrite map_length. apply nth_error_None. exact E. }
-    rewrite Etab. clear. induction (match nth_error (ff_levels d) l with Some lv => lv_accepts lv | None => [] end) as [|e es IH]; [reflexivity|].
-    cbn [existsb]. rewrite sem_args_eqb', IH. reflexivity. }
-  destruct (filter (fun l => predicate fb f l (map (fun a => [Some a]) args)) (all_levels fb f)) as [|l0 [|? ?]] eqn:Ef; try discriminate.
-  assert (Hl0 : In l0 (filter (fun l => predicate fb f l (map (fun a => [Some a]) args)) (all_levels fb f))) by (rewrite Ef; left; reflexivity).
-  apply filter_In in Hl0. destruct Hl0 as [Hl0 Hp0]. unfold all_levels in Hl0. apply in_seq in Hl0.
-  exists dw, l0. split; [exact Hder|]. split; [reflexivity|]. split; [reflexivity|]. split; [reflexivity|]. split; [exact Hsu|].
-  split; [exact Hdeps|]. split; [rewrite Hnl; lia|]. split; [rewrite Hacc; exact Hp0|].
-  intros l Hl Ha. rewrite Hacc in Ha.
-  assert (Hin' : In l (filter (fun l => predicate fb f l (map (fun a => [Some a]) args)) (all_levels fb f))).
-  { apply filter_In. split; [unfold all_levels; apply in_seq; rewrite Hnl in Hl; lia | exact Ha]. }
-  rewrite Ef in Hin'. destruct Hin' as [E | []]. symmetry. exact E.
+  destruct (f0_table_exact f fd d w s0 t Hd Hnl Hsu Hex (fun x Hx => Hcells x (Hdeps x Hx))) as (l0 & H1 & H2 & H3).
+  eexists _, l0. split; [exact Hder|]. split; [reflexivity|]. split; [reflexivity|]. split; [reflexivity|]. split; [exact Hsu|].
+  split; [exact Hdeps|]. split; [exact H1|]. split; [exact H2 | exact H3].
 Qed.
 
 Lemma f0_sem_factor_old f fd : nth_error (s_factors S0) f = Some fd -> f < n.
